@@ -430,6 +430,82 @@ func harnesses(r *fw.Run) []fw.HarnessSpec {
 			checkProof(c, "cursor", proof, ref, set)
 		})
 	})
+	// trees that contain exotic cells in the part that is kept: a library cell next to ordinary cells (what account
+	// states with library code look like). Every subset of the ordinary cells is pruned through the cursor API; the
+	// kept cells - the library cells included - appear in the proof as they are.
+	add("cursor-prune-with-library-cells", 0, func(c *enum.Ctx) {
+		lib := cell.NewLibrary([32]byte{0x4c, 0x49, 0x42, byte(seed)})
+		lib2 := cell.NewLibrary([32]byte{0x4c, 0x32})
+		l1 := cell.MustNew([]byte{0x11}, 8, nil, false)
+		l2 := cell.MustNew([]byte{0x22, 0x80}, 9, nil, false)
+		a := cell.MustNew([]byte{0xA0}, 8, []*cell.Cell{lib, l1}, false)
+		b := cell.MustNew([]byte{0xB0}, 8, []*cell.Cell{l2}, false)
+		var ref *cell.Cell
+		switch c.ChooseFree(3) {
+		case 0:
+			ref = cell.MustNew([]byte{0x01}, 8, []*cell.Cell{a, lib2, b}, false)
+		case 1:
+			ref = cell.MustNew([]byte{0x02}, 8, []*cell.Cell{lib, a}, false) // the library cell twice
+		default:
+			ref = cell.MustNew([]byte{0x03}, 8, []*cell.Cell{b, cell.MustNew([]byte{0xC0}, 8, []*cell.Cell{a, lib2}, false)}, false)
+		}
+		var cells []*cell.Cell
+		ref.Walk(func(x *cell.Cell) {
+			if !x.Special {
+				cells = append(cells, x)
+			}
+		})
+		set := map[*cell.Cell]bool{}
+		mask := 0
+		for i, x := range cells {
+			if x != ref && c.ChooseFree(2) == 1 {
+				set[x] = true
+				mask |= 1 << i
+			}
+		}
+		h := ref.ReprHash()
+		c.Case(append(h[:], byte(mask)), true)
+		c.Sample(map[string]any{"dag": ref.Describe(), "pruned_cells_mask": mask})
+		c.Label("dag=%s pruned mask=%b", ref.Describe(), mask)
+		c.Try("panic:cursor-library", func() {
+			raw, err := rboc.Serialize([]*cell.Cell{ref}, rboc.Options{})
+			if err != nil {
+				c.Fail("setup", "%v", err)
+				return
+			}
+			roots, err := tb.DeserializeBoc(raw)
+			if err != nil || len(roots) != 1 {
+				c.Fail("setup-parse", "tongo does not parse the tree with library cells: %v", err)
+				return
+			}
+			prover, err := tb.NewMerkleProver(roots[0])
+			if err != nil {
+				c.Fail("prover-error", "%v", err)
+				return
+			}
+			cur := prover.Cursor()
+			var nav func(x *cell.Cell, cu *tb.Cursor, visited map[*cell.Cell]bool)
+			nav = func(x *cell.Cell, cu *tb.Cursor, visited map[*cell.Cell]bool) {
+				if visited[x] {
+					return
+				}
+				visited[x] = true
+				if set[x] {
+					cu.Prune()
+				}
+				for i, rch := range x.Refs {
+					nav(rch, cu.Ref(i), visited)
+				}
+			}
+			nav(ref, cur, map[*cell.Cell]bool{})
+			proof, err := prover.CreateProof(cur)
+			if err != nil {
+				c.Fail("create-proof-error", "%v", err)
+				return
+			}
+			checkProof(c, "cursor-library", proof, ref, set)
+		})
+	})
 	return hs
 }
 
